@@ -463,7 +463,14 @@ func (v *FnVerifier) havocKeys(st *State, ms *ModSet) {
 		v.nEpoch++
 		st.epoch = v.nEpoch
 		v.epochAlloc[st.epoch] = na
-		st.heaps = map[string]string{}
+		keep := map[string]string{}
+		for k, t := range st.heaps {
+			// ghost counters of the function under verification itself: no callee can change them
+			if strings.HasPrefix(k, "GH!ncalls!") || k == "GH!nrecv" {
+				keep[k] = t
+			}
+		}
+		st.heaps = keep
 		st.heaps[allocKey] = na
 		return
 	}
@@ -479,6 +486,10 @@ func (v *FnVerifier) havocKeys(st *State, ms *ModSet) {
 		v.assumeClosed(k, n, na)
 		if ms.Keys[k].FreshOnly {
 			v.frameOld(k, old, n, a, nil)
+		}
+		if k == "GH!nrecv" {
+			// receive counters only grow
+			v.smt.assert(fmt.Sprintf("(forall ((c Int)) (! (>= (select %s c) (select %s c)) :pattern ((select %s c))))", n, old, n))
 		}
 	}
 }
@@ -555,6 +566,9 @@ func (v *FnVerifier) ensureKey(ki KeyInfo) {
 	case ki.Map != nil:
 		v.mapKeys(ki.Map)
 	case ki.Ghost != "":
+		if strings.Contains(ki.Ghost, "Tok") {
+			v.streamKeys() // declares the token datatype
+		}
 		if _, ok := v.reg.sort[ki.Key]; !ok {
 			v.reg.sort[ki.Key] = ki.Ghost
 			v.reg.dims[ki.Key] = -1
